@@ -230,6 +230,7 @@ class QasmOutput:
         self.meas_comments = meas_comments
         qubit_id_map = self._generate_qubit_ids()
         self.cregs = self._generate_cregs(meas_key_id_map)
+        self._validate_control_keys()
         self.args = protocols.QasmArgs(
             precision=precision,
             version=version,
@@ -298,6 +299,20 @@ class QasmOutput:
                 cregs[meas_id] = (len(meas.qubits), comment)
 
         return cregs
+
+    def _validate_control_keys(self) -> None:
+        """A register shared by measurements of different sizes keeps stale bits of the larger
+        measurement, so conditions on such a key would not see what Cirq sees."""
+        sizes: dict[str, set[int]] = {}
+        for meas in self.measurements:
+            sizes.setdefault(protocols.measurement_key_name(meas), set()).add(len(meas.qubits))
+        for op in self.operations:
+            for key in protocols.control_keys(op):
+                if len(sizes.get(str(key), ())) > 1:
+                    raise ValueError(
+                        f'Cannot output classical control on key {str(key)!r} as QASM: '
+                        'the key is measured with different numbers of qubits.'
+                    )
 
     def is_valid_qasm_id(self, id_str: str) -> bool:
         """Test if id_str is a valid id in QASM grammar."""
